@@ -75,13 +75,13 @@ class GWCSAPIMixin(BaseHighLevelWCS, BaseLowLevelWCS):
 
     def _remove_quantity_output(self, result, frame):
         if self.forward_transform.uses_quantity:
-            if self.output_frame.naxes == 1:
+            if frame.naxes == 1:
                 result = [result]
 
             result = tuple(r.to_value(unit) for r, unit in zip(result, frame.unit))
 
         # If we only have one output axes, we shouldn't return a tuple.
-        if self.output_frame.naxes == 1 and isinstance(result, tuple):
+        if frame.naxes == 1 and isinstance(result, tuple):
             return result[0]
         return result
 
